@@ -158,6 +158,11 @@ def multi_branch_programs():
         yield {"calls": [["update", T], ["set", "a", e], ["where", ["cmp", "=", fid, raw(3)]]]}
         yield {"calls": [["into", T], ["insert", [e, raw("tail")]]]}
         yield {"calls": [["from", T], ["select", [["agg", "SUM", e]]], ["groupby", [fb]], ["having", ["cmp", ">", ["agg", "MAX", e], raw(8)]]]}
+    # arrays that mix columns / expressions with constants
+    for arr in (["array", [fa, raw(1)]], ["array", [raw(1), fa, raw("x")]], ["array", [["arith", "+", fa, raw(2)], fb]]):
+        yield {"calls": [["from", T], ["select", [arr, fb]], ["where", ["cmp", "=", fb, raw(5)]]]}
+        yield {"calls": [["from", T], ["select", [fb]], ["where", ["cmp", "=", fb, arr]], ["limit", 2]]}
+        yield {"calls": [["from", T], ["select", [["as", arr, "arr"]]], ["where", ["cmp", ">", fa, raw(0)]]]}
     yield {"calls": [["from", T], ["select", [tp]], ["where", ["logic", "AND", ["between", fa, raw(1), raw(9)], ["in", fb, [raw("p"), raw("q"), raw("r")]]]]]}
     yield {"calls": [["from", T], ["select", [fa]], ["where", ["logic", "OR", ["logic", "AND", ["cmp", "=", fa, raw(1)], ["cmp", "=", fb, raw(2)]],
                                                                 ["logic", "AND", ["cmp", "=", fa, raw(3)], ["not", ["cmp", "=", fb, raw(4)]]]]]]}
@@ -314,7 +319,15 @@ def expected_values(node, out):
                 return [elem(y) for y in x[1]]
             return prog.pyval(x[1])
 
-        out.append([elem(x) for x in node[1]])
+        def plain(x):
+            return x[0] in ("null", "raw", "lit") or (x[0] == "array" and all(plain(y) for y in x[1]))
+
+        if all(plain(x) for x in node[1]):
+            out.append([elem(x) for x in node[1]])
+        else:
+            # an array with a column / expression among its elements is not one value: its constants are values on their own
+            for x in node[1]:
+                expected_values(x, out)
         return
     if tag in ("valnp", "json", "interval", "param", "literal", "f", "col", "name", "t", "cte", "sym", "columns",
                "force_index", "use_index", "for_update", "top", "modifier", "star", "null"):
